@@ -5,7 +5,7 @@
    raise, the tick time, and which pending command lines have been completed by the command manager. *)
 From Coq Require Import ZArith List Bool Arith.
 From OP Require Import lib.Obs.
-From OP Require model.C41.
+From OP Require model.MacroSearch.
 Import ListNotations.
 Open Scope Z_scope.
 
@@ -214,7 +214,7 @@ Section Prog.
   Definition calls_of (m : nat) : list nat := calls_fuel (length p) m.
   (* visit_CallMacroNode's check: would calling macro nm (node m) make it call itself *)
   Definition would_recurse (s : S) (nm m : nat) : bool :=
-    C41.refused (map (fun e => (fst e, calls_of (snd e))) (macro_put (macros s) nm m)) nm.
+    MacroSearch.refused (map (fun e => (fst e, calls_of (snd e))) (macro_put (macros s) nm m)) nm.
 
   (* after the threshold has passed: started, path pushed, visit_Node yields EndTick *)
   Definition enter (n : nat) (k : stack) (s : S) : outcome :=
